@@ -463,6 +463,63 @@ type Pred struct {
 
 func (p Pred) Put(c *wire.Case) { c.Int(p.Code).Int(p.A).Int(p.B) }
 
+// EvalObs interprets the predicate on a snapshot of the element as the filter callback sees it: codes
+// 0..7 as Eval; 8..17 read the other fields (Pbf.CheckLib.eval_full is the Coq twin):
+// 8 A: at least A refs (way nodes / members); 9: closed (>= 2 refs, first = last); 10 A: some ref = A;
+// 11: visible; 12: has a timestamp; 13: changeset even; 14: uid even; 15: user not empty;
+// 16: node: lat+lon (nanodegrees) even; way / relation: some coordinate pair is not (0,0);
+// 17: some tag has an empty key or an empty value.
+func (p Pred) EvalObs(o *Obs) bool {
+	var refs []int64
+	for _, n := range o.Nodes {
+		refs = append(refs, n[0])
+	}
+	for _, m := range o.Members {
+		refs = append(refs, m.Ref)
+	}
+	switch p.Code {
+	case 8:
+		return int64(len(refs)) >= p.A
+	case 9:
+		return len(refs) >= 2 && refs[0] == refs[len(refs)-1]
+	case 10:
+		for _, r := range refs {
+			if r == p.A {
+				return true
+			}
+		}
+		return false
+	case 11:
+		return o.Visible
+	case 12:
+		return o.HasTS
+	case 13:
+		return o.CS%2 == 0
+	case 14:
+		return o.UID%2 == 0
+	case 15:
+		return o.User != ""
+	case 16:
+		if o.Kind == 0 {
+			return (o.Lat+o.Lon)%2 == 0
+		}
+		for _, n := range o.Nodes {
+			if n[1] != 0 || n[2] != 0 {
+				return true
+			}
+		}
+		return false
+	case 17:
+		for _, t := range o.Tags {
+			if t[0] == "" || t[1] == "" {
+				return true
+			}
+		}
+		return false
+	}
+	return p.Eval(o.ID, int(o.Version), len(o.Tags))
+}
+
 // Eval interprets the predicate on (id, version, number of tags).
 func (p Pred) Eval(id int64, version int, ntags int) bool {
 	switch p.Code {
